@@ -4,6 +4,7 @@ import (
 	"bytes"
 	"context"
 	"fmt"
+	"github.com/scrapli/scrapligo/util/verifhook"
 	"regexp"
 	"time"
 
@@ -180,6 +181,7 @@ func (d *Driver) handleCallbacks(
 			default:
 				rb, err := d.Channel.Read()
 				if err != nil {
+					verifhook.Point("cb.result-send")
 					c <- &callbackResult{
 						err: err,
 					}
@@ -192,6 +194,7 @@ func (d *Driver) handleCallbacks(
 
 				for i, cb := range callbacks {
 					if cb.check(b) {
+						verifhook.Point("cb.result-send")
 						c <- &callbackResult{
 							i:         i,
 							callbacks: callbacks,
